@@ -784,3 +784,162 @@ func ruleGroupMemberSubscribesAsGroupMember(c *eng.Ctx) {
 	}
 	c.Check(bad == "", "the group a subscription is booked under is the request's, whatever else the request asks for", c.P.Pos(fn.Pos()), "p.consumers is keyed by the request's group id on every path", "partition.Subscribe can key the group bookkeeping by "+bad+" although the request names a consumer: a member whose request carries some other option (a reverse subscription) is not checked against the current member's epoch, does not cancel it and is not registered — two members of one group consume the partition at the same time")
 }
+
+// ruleForeignAckNeverCompletesAPublish (R16.5 extension): two streams can be attached to one NATS subject and both leaders ack to
+// the publisher's inbox. publishSync hands back an ack only when it is known to be the ack of the stream published to (or
+// when no stream is known): whatever else an ack matches — a correlation id is chosen by the client and the same on both —
+// an ack of another stream says nothing about the expected offset on this one.
+func ruleForeignAckNeverCompletesAPublish(c *eng.Ctx) {
+	fn := c.Fn("server.(*apiServer).publishSync")
+	if fn == nil {
+		return
+	}
+	dec := eng.CallsIn(fn, "server/protocol.UnmarshalAck")
+	if len(dec) == 0 {
+		c.Unresolved("the UnmarshalAck call of publishSync")
+		return
+	}
+	ackStream := func(v ssa.Value) bool { f, _ := eng.FieldRead(eng.Strip(v)); return f != nil && f.Name() == "Stream" }
+	mine := eng.EdgesWhere(fn, func(a eng.AtomView) bool {
+		return a.RelHolds(ackStream, eng.Param("stream"), eng.EQ) || a.RelHolds(eng.Param("stream"), eng.StrConst(""), eng.EQ)
+	})
+	var from []ssa.Instruction
+	for _, d := range dec {
+		from = append(from, d.(ssa.Instruction))
+	}
+	q := &eng.PathQuery{Fn: fn, FromAfter: from, CutEdges: mine, Target: func(x ssa.Instruction) bool {
+		r, ok := x.(*ssa.Return)
+		if !ok {
+			return false
+		}
+		rv := eng.RetVals(r)
+		return len(rv) == 2 && !eng.NilConst(rv[0]) && eng.NilConst(rv[1])
+	}, CutInstr: func(x ssa.Instruction) bool {
+		for _, d := range dec {
+			if x == d.(ssa.Instruction) {
+				return true
+			}
+		}
+		return false
+	}}
+	w := q.Find()
+	c.Check(w == nil && len(mine) > 0, "an ack is handed back only when it names the stream published to", c.Pos(from[0]), "every way from decoding an ack to returning it crosses ack.Stream == stream (or stream == \"\")", "publishSync can return an ack without having compared its stream with the stream published to ("+w.String()+"): when two streams share the subject, the other stream's ack — it carries the same client-chosen correlation id — completes the publish, and a conditional publish whose expected offset was refused here is reported as stored")
+}
+
+// ruleAPublishGoesOnTheWireOnce (R16.x): apiServer.publish sends a message once. A copy sent again while the first is still
+// waiting for its commit carries the same expected offset: the second is refused, its refusal arrives first, and the
+// publisher is told its expected offset was wrong although its message is stored at exactly that offset.
+func ruleAPublishGoesOnTheWireOnce(c *eng.Ctx) {
+	fn := c.Fn("server.(*apiServer).publish")
+	if fn == nil {
+		return
+	}
+	sends := eng.CallsIn(fn, "server.apiServer.publishSync", "github.com/nats-io/nats.go.Conn.Publish", "github.com/nats-io/nats.go.Conn.PublishRequest")
+	if len(sends) == 0 {
+		c.Unresolved("the send (publishSync / Conn.Publish) of apiServer.publish")
+		return
+	}
+	for _, s := range sends {
+		s := s
+		q := &eng.PathQuery{Fn: fn, FromAfter: []ssa.Instruction{s.(ssa.Instruction)}, Target: func(x ssa.Instruction) bool { return x == s.(ssa.Instruction) }}
+		w := q.Find()
+		c.Check(w == nil, "a publish is sent once per call", c.Pos(s.(ssa.Instruction)), "no way back to the send after it", "apiServer.publish can send the same message again ("+w.String()+"): the copy carries the same expected offset as the original, which is still waiting to be committed — it is refused, the refusal overtakes the ack, and the publisher of a conditional publish is told `incorrect offset` about a message that was stored where it asked")
+	}
+}
+
+// ruleStreamConfigCopiesAreComplete (R16.8 / R06.x extension): a StreamConfig that is built field by field from another one
+// carries every field of the message (the optional settings are what a stream was created with: concurrency control,
+// encryption, retention, compaction …). A field the copy leaves out is the default again wherever the copy is used — in a
+// snapshot, for every server that restores from it.
+func ruleStreamConfigCopiesAreComplete(c *eng.Ctx) {
+	p := c.P
+	pp := p.ByPath["server/protocol"]
+	if pp == nil || pp.Types == nil {
+		c.Unresolved("package server/protocol")
+		return
+	}
+	obj := pp.Types.Scope().Lookup("StreamConfig")
+	if obj == nil {
+		c.Unresolved("type server/protocol.StreamConfig")
+		return
+	}
+	st, ok := obj.Type().Underlying().(*types.Struct)
+	if !ok {
+		c.Unresolved("struct server/protocol.StreamConfig")
+		return
+	}
+	isCfg := func(t types.Type) bool {
+		if pt, ok := t.Underlying().(*types.Pointer); ok {
+			t = pt.Elem()
+		}
+		return types.Identical(t, obj.Type())
+	}
+	seen := 0
+	for _, fn := range p.Funcs {
+		if !p.IsModuleFunc(fn) || fn.Pkg == nil || fn.Pkg.Pkg == pp.Types {
+			continue
+		}
+		seen++
+		byAlloc := map[*ssa.Alloc]map[string]bool{}
+		copies := map[*ssa.Alloc]bool{}
+		eng.Instrs(fn, func(in ssa.Instruction) {
+			s, isSt := in.(*ssa.Store)
+			if !isSt {
+				return
+			}
+			fa, isFA := s.Addr.(*ssa.FieldAddr)
+			if !isFA {
+				return
+			}
+			al, isAl := fa.X.(*ssa.Alloc)
+			if !isAl || !al.Heap || !isCfg(al.Type()) {
+				return
+			}
+			if byAlloc[al] == nil {
+				byAlloc[al] = map[string]bool{}
+			}
+			byAlloc[al][eng.FieldNameOf(fa)] = true
+			// is the value taken from (a field of) another StreamConfig — directly or through a copying helper?
+			var fromCfg func(v ssa.Value, d int) bool
+			fromCfg = func(v ssa.Value, d int) bool {
+				v = eng.Strip(v)
+				if d > 3 || v == nil {
+					return false
+				}
+				if f, b := eng.FieldRead(v); f != nil && b != nil && isCfg(b.Type()) {
+					return true
+				}
+				if call := eng.AsCall(v); call != nil {
+					for _, a := range call.Call.Args {
+						if fromCfg(a, d+1) {
+							return true
+						}
+					}
+				}
+				return false
+			}
+			if fromCfg(s.Val, 0) {
+				copies[al] = true
+			}
+		})
+		for al, set := range byAlloc {
+			if !copies[al] {
+				continue
+			}
+			missing := ""
+			for i := 0; i < st.NumFields(); i++ {
+				n := st.Field(i).Name()
+				if strings.HasPrefix(n, "XXX_") || !st.Field(i).Exported() {
+					continue
+				}
+				if !set[n] {
+					missing += " " + n
+				}
+			}
+			c.Check(missing == "", "a StreamConfig copied field by field in "+fn.Name()+" carries every field", c.Pos(al), "every exported field of proto.StreamConfig is set from the source", fn.Name()+" builds a StreamConfig from another one and leaves out field(s)"+missing+": wherever the copy is used the omitted setting is the server default again — in a snapshot every server that restores from it runs the stream without the setting it was created with (a stream created with optimistic concurrency control stores stale conditional publishes)")
+		}
+	}
+	if seen == 0 {
+		c.Unresolved("module functions")
+	}
+}
